@@ -35,4 +35,7 @@ T29P == BNOfInt(29)       T29D == BNOfInt(3)      T29L == BNOfInt(3)      T29N =
 T109P == BNOfInt(109)     T109D == BNOfInt(11)    T109L == BNOfInt(13)    T109N == 109
 T2029P == BNOfInt(2029)   T2029D == BNOfInt(35)   T2029L == BNOfInt(257)  T2029N == 2029
 T32749P == BNOfInt(32749) T32749D == BNOfInt(40)  T32749L == BNOfInt(4111) T32749N == 32749
+\* toy scalar moduli (primes) with two-byte encodings: 2^12+15, 2^8+7, 2^15+3, 2^16-15, 2^8+1
+ToyL_4111 == BNOfInt(4111)   ToyL_263 == BNOfInt(263)   ToyL_32771 == BNOfInt(32771)
+ToyL_65521 == BNOfInt(65521) ToyL_257 == BNOfInt(257)
 =============================================================================
